@@ -46,6 +46,18 @@ def check(ctx: Ctx) -> None:
             counts[kind] += 1
             sets = [e for e in st.events if e.kind == "call" and e.attr == "set" and e.recv == EVS]
             n_set += bool(sets)
+            # one set per task, after everything the task still tells the peer: _local_schedulexec pairs each accepted task with one
+            # clear(); a second, later set() of the finished task goes stale and reads "main thread free" while the next task runs
+            if sets:
+                k0 = st.events.index(sets[0])
+                later = [e for e in st.events[k0 + 1:] if e.kind == "call" and (e.attr in ("close", "_send", "send") or (e in sets[1:]))]
+                key2 = ("early", id(sets[0].node))
+                if later and key2 not in reported:
+                    reported.add(key2)
+                    what = "is set again later on the same path" if any(e in sets[1:] for e in later) else f"is followed by `{norm(later[0].node)[:40]}`"
+                    ob.violation(fi, sets[0].node, f"{EVT}.set() is not the last thing executetask does for its task: it {what}; the receiver thread may accept the next "
+                                                   "remote_exec in between and the event then reads 'main thread free' while that task runs (the deadlock error is never raised)",
+                                 construct="completion event set early")
             if sets or _tv0(("cmp", "is", EVS, _N0), dict(st.cond)) is True:
                 continue
             last = ev0.cfg.nodes[pth[-2][0]] if len(pth) >= 2 else None
